@@ -250,13 +250,13 @@ Proof. split; [exact connected_stream_usable|exact usable_observed]. Qed.
 Print Assumptions C07_connected_stream_usable.
 
 (* the case that failed before ff67af1: connect to a missing path, retry to the listening
-   one from the callback, uv_write from the second callback - the stream is usable and the
-   write goes through (it feeds the watcher) *)
+   one from the callback, uv_write from the second callback - the stream is usable, the
+   write goes through and its callback runs in the next iteration *)
 Example C07_pipe_retry_usable :
   let '(x, tr) := crun (cinit false false (mkO [0] [-2; 0] [0] [false; true; false; false]))
                        [CPipe 40; CRun; CRun; CRun; CRun] (fun k => match k with 0%nat => [CPipe 40] | 1%nat => [CWrite] | _ => [] end) in
   filter (fun e => match e with CReg _ => false | _ => true end) tr =
-    [CRet 0 0; CCb 0 (-2) SrcDelayed; CRet 1 0; CCb 1 0 SrcSo; CUsable true] /\ cwr x = Some true.
+    [CRet 0 0; CCb 0 (-2) SrcDelayed; CRet 1 0; CCb 1 0 SrcSo; CUsable true; CWcb] /\ a_wr (cax x) = Some true.
 Proof. vm_compute. split; reflexivity. Qed.
 Print Assumptions C07_pipe_retry_usable.
 
